@@ -528,8 +528,22 @@ func indexNumber(attr Value) (float64, bool) {
 		f, err := strconv.ParseFloat(s, 64)
 		return f, err == nil && !math.IsNaN(f)
 	}
-	if isNumberKind(reflect.TypeOf(attr).Kind()) {
-		f := CoerceNumber(attr)
+	if rv := reflect.ValueOf(attr); isNumberKind(rv.Kind()) {
+		if _, ok := attr.(Number); ok {
+			f := CoerceNumber(attr)
+			return f, !math.IsNaN(f)
+		}
+		// The number the value holds, whatever its type says about how it
+		// prints: time.March is index 3, not the number "March" spells.
+		var f float64
+		switch rv.Kind() {
+		case reflect.Float32, reflect.Float64:
+			f = rv.Float()
+		case reflect.Uint, reflect.Uint8, reflect.Uint16, reflect.Uint32, reflect.Uint64:
+			f = float64(rv.Uint())
+		default:
+			f = float64(rv.Int())
+		}
 		return f, !math.IsNaN(f)
 	}
 	return 0, false
